@@ -154,6 +154,16 @@ int  hx_run(const hx_script *s, hx_obs *o);   /* 0 = executed, 1 = skipped (in c
 void hx_verdict_add(const char *prop, const char *kind, const char *fmt, ...) __attribute__((format(printf, 3, 4)));
 int  hx_has_verdict(const hx_obs *o, const char *prop);
 
+/* several parsers alive at once (C19): each context owns its parser, observation and driver state; an op of one
+ * context may be issued while a callback of another context is running (nesting) */
+typedef struct hx_ctx hx_ctx;
+hx_ctx *hx_ctx_open(const hx_script *s, hx_obs *o);       /* s provides cfg / protocol / deviations; ops are fed one by one */
+void hx_ctx_op(hx_ctx *c, const hx_op *op);
+void hx_ctx_finish(hx_ctx *c);                             /* final dump, destroy_all, frees the context */
+void hx_multi_begin(void);                                 /* resets allocation accounting for a multi-parser execution */
+int  hx_multi_end(void);                                   /* live allocations left (0 = clean) */
+extern void (*hx_cb_nest_hook)(void);                      /* called inside every non-log callback, after it was recorded */
+
 /* digest used by differential oracles: per-tx coalesced callback kinds + bodies + dumps */
 #define DG_COALESCE   1   /* coalesce runs of body / raw header data callbacks            */
 #define DG_MASK_MPH   2   /* mask HTP_MULTI_PACKET_HEAD                                   */
@@ -169,6 +179,9 @@ extern int64_t hx_live_bytes;    /* live bytes allocated inside libhtp          
 void hx_clock_set(long sec, long usec);
 void hx_clock_add(long usec);
 void hx_note_set(const char *t);
+int  hx_shared_enable(void);      /* M-shared: cfg arena + libhtp_v.so writable segment become read-only; returns regions protected */
+void hx_shared_disable(void);
+extern uintptr_t hx_prot_lo[2], hx_prot_hi[2]; extern int hx_prot_n;
 void *hx_real_malloc(size_t n);
 void  hx_real_free(void *p);
 
